@@ -305,14 +305,17 @@ Print Assumptions C16_kernel_gmap_cM_partial.
 Theorem C16_gmap_ctor_keeps_spline_settings : forall k a, ctor_kind false k a = k /\ ctor_fill false k a = k.
 Proof. exact sgm_ctor_keeps. Qed.
 Print Assumptions C16_gmap_ctor_keeps_spline_settings.
-(** ExtendedGeneticMap does not: whenever it builds its spline it falls back to the defaults of build_spline, so reading a map
-    back with spline_kind equal to the source's does not reproduce that parameter *)
-Theorem C16_codec_roundtrip_egmap_spline_kind_refuted : exists k, ctor_kind true k true <> k /\ ctor_kind true k true = zs "linear".
-Proof. exact egm_ctor_drops_kind. Qed.
-Print Assumptions C16_codec_roundtrip_egmap_spline_kind_refuted.
-Theorem C16_codec_roundtrip_egmap_spline_kind_partial : forall k a, a = false \/ k = zs k_egmap_build_default_kind -> ctor_kind true k a = k.
-Proof. exact egm_ctor_partial. Qed.
-Print Assumptions C16_codec_roundtrip_egmap_spline_kind_partial.
+(** so does ExtendedGeneticMap (repaired in the library: its constructor hands self.spline_kind, self.spline_fill_value to
+    build_spline), for every kind and fill value, whether or not the spline is built: reading a map back with the source's
+    spline_kind reproduces that parameter *)
+Theorem C16_codec_roundtrip_egmap_spline_kind : forall k a, ctor_kind true k a = k /\ ctor_fill true k a = k.
+Proof. exact egm_ctor_keeps. Qed.
+Print Assumptions C16_codec_roundtrip_egmap_spline_kind.
+(** regression witness, about the FORMER constructor ([old_egmap_ctor_kind]: build_spline called with nothing but the keyword
+    dictionary): whenever it built its spline it fell back to the defaults of build_spline *)
+Theorem C16_codec_roundtrip_egmap_spline_kind_old_refuted : exists k, old_egmap_ctor_kind k true <> k /\ old_egmap_ctor_kind k true = zs "linear".
+Proof. exact old_egm_ctor_drops_kind. Qed.
+Print Assumptions C16_codec_roundtrip_egmap_spline_kind_old_refuted.
 
 (** to_pandas() followed by from_pandas(), both with their default arguments: the writer's default unit is the centiMorgan, the
     reader's the Morgan - positions come back multiplied by 100 *)
@@ -323,19 +326,29 @@ Theorem C16_codec_roundtrip_gmap_defaults_refuted :
 Proof. exact default_roundtrip_scales. Qed.
 Print Assumptions C16_codec_roundtrip_gmap_defaults_refuted.
 
-(** to_egmap followed by from_egmap loses marker names and function codes (the reader looks for header names the writer never
-    produces); everything else survives, and a map without names and codes survives entirely *)
-Theorem C16_codec_roundtrip_egmap_names_refuted :
-  (exists g', egmap_from false (egmap_to w_eg) = Some (g', None)
+(** to_egmap followed by from_egmap reproduces every extended genetic map, marker names and function codes included (repaired in the
+    library: the writer uses the column names the reader looks for, the reader takes an entirely empty optional column as absent).
+    The hypotheses exclude only what the file format cannot express: a present array of length zero (an empty column, like an
+    absent one) *)
+Theorem C16_codec_roundtrip_egmap : forall (g : gmap) (auto_group : bool) s, g_stop g = Some s -> g_name g <> Some [] -> g_fn g <> Some [] ->
+  egmap_from auto_group (egmap_to g) = Some (gmap_construct auto_group g).
+Proof. exact egmap_roundtrip. Qed.
+Print Assumptions C16_codec_roundtrip_egmap.
+(** the header of the current writer carries the reader's two names at the positions (4, 5) the reader takes the columns from *)
+Theorem C16_kernel_egmap_header :
+  nth_error k_egmap_file_header 4 = nth_error k_egmap_file_optional 0 /\ nth_error k_egmap_file_header 5 = nth_error k_egmap_file_optional 1
+  /\ length k_egmap_file_header = 6%nat /\ length k_egmap_file_optional = 2%nat.
+Proof. exact egmap_header_match. Qed.
+Print Assumptions C16_kernel_egmap_header.
+(** regression witness, about the FORMER pair ([old_egmap_to]: optional columns written as 'name' / 'fncode'; [old_egmap_from]: read
+    whenever the header has 'mkr_name' / 'map_fncode'): names and function codes were lost, everything else survived *)
+Theorem C16_codec_roundtrip_egmap_names_old_refuted :
+  (exists g', old_egmap_from false (old_egmap_to w_eg) = Some (g', None)
               /\ g_name w_eg = Some [[97]; [98]] /\ g_name g' = None /\ g_fn g' = None
               /\ g_chr g' = g_chr w_eg /\ g_pos g' = g_pos w_eg /\ g_stop g' = g_stop w_eg /\ fl_eqb (g_gen g') (g_gen w_eg) = true)
-  /\ forallb (fun nm => negb (existsb (String.eqb nm) k_egmap_file_header)) k_egmap_file_optional = true.
-Proof. split; [exact egmap_names_lost | exact egmap_header_mismatch]. Qed.
-Print Assumptions C16_codec_roundtrip_egmap_names_refuted.
-Theorem C16_codec_roundtrip_egmap_partial : forall (g : gmap) (auto_group : bool) s, g_stop g = Some s -> g_name g = None -> g_fn g = None ->
-  egmap_from auto_group (egmap_to g) = Some (gmap_construct auto_group g).
-Proof. exact egmap_roundtrip_partial. Qed.
-Print Assumptions C16_codec_roundtrip_egmap_partial.
+  /\ forallb (fun nm => negb (existsb (cell_eqb (CS (zs nm))) old_egmap_header)) k_egmap_file_optional = true.
+Proof. split; [exact old_egmap_names_lost | exact old_egmap_header_mismatch]. Qed.
+Print Assumptions C16_codec_roundtrip_egmap_names_old_refuted.
 
 (** the table readers address a column by name or by position: in every such conditional of the current source the three
     occurrences are the same argument, and the genetic-map readers assign it to the field it is named after (finite domain:
@@ -366,13 +379,11 @@ Example C16_hyps_satisfiable :
   /\ (exists h' o', class_copy [spec_ALGM] 4 true spec_BV [CArr (VArr TF64 [1; 1] [0])] [("mat"%string, HRef 0%nat)] = Some (h', o'))
   /\ (exists f', write_all_k spec_ALGM [] (Some [109]) [w_model [([120], Some (VInt 1))]; w_model w_hyper] = (f', None))
   /\ opt_eqb vm_eqb (vm_from_pandas true (vm_to_pandas_k true w_vm_sorted)) (Some w_vm_sorted) = true
-  /\ (exists g s0, g_stop g = Some s0 /\ g_name g = None /\ g_fn g = None /\ g_chr g <> [])
-  /\ (exists k, k = zs k_egmap_build_default_kind /\ ctor_kind true k true = k).
+  /\ (exists g s0, g_stop g = Some s0 /\ g_name g <> Some [] /\ g_fn g <> Some [] /\ g_name g <> None /\ g_fn g = None /\ g_chr g <> []).
 Proof.
   split; [destruct w_model_wf as [A [B [C D]]]; split; [exact A|]; split; [exact B|]; split; [exact C|]; split; [exact parents_nil | exact D]|].
   destruct w_objs_wf as [A [B C]]. split; [exact A|]. split; [exact B|]. split; [exact C|].
   split; [eexists; vm_compute; reflexivity|]. split; [exact vm_pandas_sorted_ok|]. split; [eexists; eexists; vm_compute; reflexivity|].
   split; [eexists; vm_compute; reflexivity|]. split; [exact vm_pandas_sorted_ok_k|].
-  split; [exists (mkG [1] [10] (Some [11]) [0%float] None None), [11]; repeat split; discriminate|].
-  eexists. split; [reflexivity | apply egm_ctor_partial; right; reflexivity].
+  exists (mkG [1] [10] (Some [11]) [0%float] (Some [[97]]) None), [11]; repeat split; discriminate.
 Qed.
